@@ -53,7 +53,7 @@ def kind(x):
         if name in ("mod", "floordiv", "shl", "shr", "and", "or", "xor", "inv", "pow", "mul", "len", "get_as_int",
                     "int", "abs", "ord", "sum", "count", "index", "bit", "select_int"):
             return "int"
-        if name in ("cat", "pack", "rep", "joinmap", "bytesof", "encode", "ljustb", "rjustb", "slice_b", "sized"):
+        if name in ("cat", "pack", "rep", "joinmap", "bytesof", "encode", "ljustb", "rjustb", "slice_b", "sized", "byte"):
             return "bytes"
         if name in ("strcat", "format", "lower", "upper", "get_as_str", "str", "chr", "repr"):
             return "str"
@@ -276,6 +276,8 @@ def length(x):
             return length(x[3])
         if n == "sized":
             return x[2]
+        if n == "byte":
+            return 1
         if n == "ifexp":
             return ifexp(x[2], length(x[3]), length(x[4]))
     return op("len", x)
